@@ -12,11 +12,17 @@ import scenarios
 import solver_checks
 
 
-def write_file(path, cfg0):
+def write_file(path, cfg0, decorated=False):
+    """decorated: the way a person keeps such a file -- comment lines, blank lines, a note at the end (all of it text that a
+    rewrite by the program drops, so the rewritten file is SHORTER than the original)"""
     import runs
     conf = runs.make_config(cfg0)
     with open(path, "w") as f:
+        if decorated:
+            f.write("# my inputs for this year -- do not lose!\n# (values below were copied from the paper forms)\n\n")
         conf.write(f)
+        if decorated:
+            f.write("\n\n# end of file: remember to ask about the missing forms ....................................................\n")
 
 
 def one_session(sid, year, request, cfg0, answers, default, k, kind, work):
@@ -26,7 +32,7 @@ def one_session(sid, year, request, cfg0, answers, default, k, kind, work):
             os.remove(path)          # --writeback-input creates the file
         before = {}
     else:
-        write_file(path, cfg0)
+        write_file(path, cfg0, decorated=(sid % 2 == 0))
         ok, before = cli_driver.file_map(path)
     kb = cli_driver.Keyboard(answers, default=default, interrupt_at=k, kind=kind)
     r1 = cli_driver.run_solve(year, request, path, kb, solution_path=os.path.join(work, "sol_%d" % sid))
